@@ -80,9 +80,9 @@ CLAIMED = {
          "assignment, reductions, scans, structural functions, geometry probes, column aggregates, ufunc column broadcast) executed under ViewBase.set_dtype(int64) and set_dtype(int32) "
          "on the same symbolic input in one path; cells, row lengths, raised-or-not must be equal; the 32-bit (start,length) gather through a uint64 view is modelled bit-exactly",
          "bounds: those of the underlying quick harnesses with rows<=2-3; index arrays' own dtype (int32 vs int64) is not compared"),
- "C05": ("4/C05", "sum/prod/any/all/max/min and bitwise_or/xor/and.reduce per row through the method, np.<func> and ufunc.reduce entry points, keepdims, "
+ "C05": ("4/C05", "sum/prod/any/all/max/min/argmax/argmin (int64, uint8, int8) and bitwise_or/xor/and.reduce per row through the method, np.<func> and ufunc.reduce entry points, keepdims, "
          "and axis=None, over symbolic row lengths with empty rows anywhere (all-empty and zero rows included); multiplication as an uninterpreted left fold",
-         "bounds: rows<=4 (5), row length<=3 (4); max/min with non-empty rows; result element type not compared (C04's subject); mean/argmax/argmin not yet covered"),
+         "bounds: rows<=4 (5), row length<=3 (4); max/min/argmax/argmin with non-empty rows; result element type not compared (C04 subject); mean not yet covered"),
  "C02": ("4/C02", "every index expression of the grammar (row: int, slice with any step, list/array with repeats and negatives, bool mask, "
          "Ellipsis; column: absent, int, slice with any start/stop/step) over symbolic row lengths (empty rows anywhere), symbolic cells and "
          "symbolic index parameters: result equals Python list-of-rows indexing, refusals exactly where the list model refuses",
